@@ -13,7 +13,7 @@ import traceback
 from collections import namedtuple, OrderedDict
 from enum import IntEnum
 from hmac import HMAC
-from struct import unpack
+from struct import pack, unpack
 
 import xfrm
 from crypto import Cipher, Crypto, DiffieHellman, Integrity, Prf
@@ -710,6 +710,11 @@ class IkeSa(object):
         invalid_ke = response.get_notifies(PayloadNOTIFY.Type.INVALID_KE_PAYLOAD)
         if invalid_ke:
             self.my_msg_id = 0
+            # a late copy of a notification we already acted upon (the retry reuses Message ID 0): the outstanding request
+            # already carries that group, generating yet another key pair would only desynchronise us from the responder
+            if invalid_ke[0].notification_data == pack('>H', self.request.get_payload(Payload.Type.KE).dh_group):
+                self.log_warning('INVALID_KE_PAYLOAD for the group we are already using. Omitting.')
+                return None
             self.dh, self.request = self.handle_invalid_ke(invalid_ke)
             self.ike_sa_init_req_data = self.request.to_bytes()
             return self.request
@@ -717,6 +722,12 @@ class IkeSa(object):
         # Recover from COOKIE
         cookie = response.get_notifies(PayloadNOTIFY.Type.COOKIE)
         if cookie:
+            # same for a late copy of the COOKIE notification we are already answering
+            if self.request.payloads and self.request.payloads[0].to_bytes() == cookie[0].to_bytes() \
+                    and self.request.payloads[0].type == Payload.Type.NOTIFY:
+                self.my_msg_id = 0
+                self.log_warning('COOKIE notification we are already answering. Omitting.')
+                return None
             self.log_warning("COOKIE notification received. Trying including the COOKIE")
             self.request.payloads.insert(0, cookie[0])
             self.ike_sa_init_req_data = self.request.to_bytes()
